@@ -27,6 +27,14 @@ def numpy_physical(d):
     logical = numpy_data(d)
     phys = d.get("phys")
     if not phys or logical.ndim != 1:
+        if phys and phys.get("view") and logical.ndim > 1:
+            # a strided window of a larger n-d array (as a[1:, 1:4] or a[:, ::2] would be): base[pre : pre + step * n : step] per dimension
+            v = phys["view"]
+            shape = [v["pre"][i] + v["step"][i] * logical.shape[i] + v["post"][i] for i in range(logical.ndim)]
+            base = np.full(shape, phys.get("fill", 99), dtype=logical.dtype, order="F" if phys.get("order") == "F" else "C")
+            view = base[tuple(slice(v["pre"][i], v["pre"][i] + v["step"][i] * logical.shape[i], v["step"][i]) for i in range(logical.ndim))]
+            view[...] = logical
+            return view
         if phys and phys.get("order") == "F" and logical.ndim > 1:
             return np.asfortranarray(logical)
         return np.ascontiguousarray(logical)
